@@ -23,7 +23,7 @@ ALIASES_DOC = {"defocus": "C10", "Cs": "C30", "C5": "C50", "astigmatism": "C12",
                "coma": "C21", "coma4": "C41", "trefoil": "C23", "trefoil4": "C43", "quadrafoil": "C34", "quadrafoil5": "C54",
                "pentafoil": "C45", "hexafoil": "C56"}
 ALIASES_DOC.update({k + "_angle": "phi" + v[1:] for k, v in list(ALIASES_DOC.items()) if v[2] != "0"})
-JUNK = ["C99", "phi", "foo_angle", "Defocus", "cs", "C1", "astigmatism4", "phi10"]
+JUNK = ["C99", "phi_", "foo_angle", "Defocus", "cs", "C1", "astigmatism4", "phi10", "defocuss"]
 
 
 def chi_spec(coeffs, alpha, phi):
@@ -117,7 +117,7 @@ class C21(Property):
                     ops.append(["u", items])
                     continue
             if r < 0.55:
-                ops.append(["s", rng.choice(names + ["defocus", "defocus"]), fx(rng.choice([rng.uniform(-1e3, 1e3), 0.0, float(rng.randint(-5, 5))]))])
+                ops.append(["s", rng.choice(names + names + ["defocus", "defocus"] + JUNK), fx(rng.choice([rng.uniform(-1e3, 1e3), 0.0, float(rng.randint(-5, 5))]))])
             else:
                 ops.append(["g", rng.choice(names + ["defocus", "defocus"] + JUNK)])
         return dict(kind="attrs", cls=rng.choice(["Aberrations", "CTF", "SpatialEnvelope"]), ops=ops)
@@ -217,11 +217,11 @@ class C21(Property):
                 alpha, phi = ab._angular_grid("cpu")
                 k = np.asarray(ab._evaluate_kernel()).astype(np.complex128)
                 exp = np.exp(-1j * 2 * np.pi / ab.wavelength * chi_spec(co, alpha.astype(np.float64), phi.astype(np.float64)))
-                if k.shape != exp.shape or np.abs(k - exp).max() > tol:
+                if k.shape != exp.shape or not (np.abs(k - exp).max() <= tol):
                     return ctx.violation("aberration-kernel-differs-from-exp-minus-i-2pi-chi-over-lambda", c,
                                          {"max_abs_diff": float(np.abs(k - exp).max()) if k.shape == exp.shape else "shape"})
                 ctf = np.asarray(tr.CTF(aberration_coefficients=co, energy=energy, **grid)._evaluate_kernel()).astype(np.complex128)
-                if np.abs(ctf - exp).max() > tol:
+                if not (np.abs(ctf - exp).max() <= tol):
                     return ctx.violation("ctf-without-aperture-differs-from-aberration-function", c, {"max_abs_diff": float(np.abs(ctf - exp).max())})
             elif chk == "rotation":
                 d = ufx(c["delta"])
@@ -233,7 +233,7 @@ class C21(Property):
                 phi = arr(c["phi"], (3, 4))
                 a = np.asarray(tr.Aberrations(aberration_coefficients=rot, energy=energy)._evaluate_from_angular_grid(alpha, phi))
                 b = np.asarray(tr.Aberrations(aberration_coefficients=co, energy=energy)._evaluate_from_angular_grid(alpha, phi - d))
-                if np.abs(a - b).max() > tol:
+                if not (np.abs(a - b).max() <= tol):
                     return ctx.violation("rotating-angle-coefficients-differs-from-rotating-the-azimuth", c, {"max_abs_diff": float(np.abs(a - b).max())})
             elif chk == "defocus":
                 v = ufx(c["value"])
@@ -252,6 +252,28 @@ class C21(Property):
                     o = mk(aberration_coefficients={"defocus": v})
                     if o.C10 != -v:
                         return ctx.violation(f"defocus-is-not-minus-C10-{name}-dict", c, {"C10": o.C10})
+                    # other value types: int, numpy scalars, and sequences (abTEM turns a sequence into a distribution of values)
+                    iv = int(round(v))
+                    for val in (iv, np.float64(v), np.int64(iv), np.float32(iv)):
+                        o = mk()
+                        o.defocus = val
+                        if float(o.C10) != -float(val) or float(o.defocus) != float(val):
+                            return ctx.violation(f"defocus-is-not-minus-C10-{name}-setter", c, {"type": type(val).__name__, "C10": repr(o.C10)})
+                    for seq in ([v, v + 1.0], (v, 2 * v - 3.0, 0.0), np.array([v, -v])):
+                        exp = [-float(x) for x in seq]
+                        for route in ("setter", "constructor", "C10"):
+                            o = mk(defocus=seq) if route == "constructor" else mk()
+                            try:
+                                if route == "setter":
+                                    o.defocus = seq
+                                elif route == "C10":
+                                    o.C10 = [-float(x) for x in seq]
+                                got = [float(x) for x in o.C10.values]
+                                back = [float(x) for x in o.defocus.values]
+                            except Exception as e:  # noqa
+                                return ctx.violation(f"defocus-sequence-through-{route}-raises", c, {"class": name, "error": f"{type(e).__name__}: {e}"[:200]})
+                            if got != exp or back != [float(x) for x in seq]:
+                                return ctx.violation(f"defocus-sequence-through-{route}-is-not-minus-C10", c, {"class": name, "C10": got, "defocus": back})
             elif chk == "alias":
                 v = ufx(c["value"])
                 alias = c["alias"]
@@ -306,33 +328,68 @@ class C21(Property):
                 ka, kb = (np.asarray(o._evaluate_from_angular_grid(alpha, phi)) for o in (src, fresh))
                 if c["cls"] == "CTF":
                     ka = np.asarray(obj._evaluate_from_angular_grid(alpha, phi))
-                if ka.shape != kb.shape or np.abs(ka - kb).max() > tol:
+                if ka.shape != kb.shape or not (np.abs(ka - kb).max() <= tol):
                     return ctx.violation("update-history-changes-the-transfer-function", c, {"max_abs_diff": float(np.abs(ka - kb).max())})
             elif chk == "ensemble":
                 import abtem
+                from itertools import product
 
-                sym = c["symbol"]
                 alpha = arr(c["alpha"], (3, 4))
                 phi = arr(c["phi"], (3, 4))
                 base = dict(co)
-                base.pop(sym, None)
-                if c.get("gaussian"):
-                    dist = abtem.distributions.gaussian(ufx(c["gaussian"][0]), int(c["gaussian"][1]))
-                else:
-                    dist = abtem.distributions.from_values([ufx(v) for v in c["values"]],
-                                                           weights=None if c.get("weights") is None else np.array([ufx(w) for w in c["weights"]]))
-                vals = [float(v) for v in dist.values]
-                wts = [float(w) for w in dist.weights]
-                e = np.asarray(tr.Aberrations(aberration_coefficients=dict(base, **{sym: dist}), energy=energy)._evaluate_from_angular_grid(alpha, phi))
-                if e.shape != (len(vals), 3, 4):
-                    return ctx.violation("aberration-ensemble-has-wrong-shape", c, {"shape": list(e.shape)})
-                for i, (v, w) in enumerate(zip(vals, wts)):
-                    s1 = np.asarray(tr.Aberrations(aberration_coefficients=dict(base, **{sym: v}), energy=energy)._evaluate_from_angular_grid(alpha, phi))
-                    # member i = weight_i x scalar run i (the distribution weights multiply the kernel), so |member i| = weight_i
-                    if np.abs(e[i] - w * s1).max() > 10 * tol * max(1.0, abs(w)):
-                        return ctx.violation("aberration-ensemble-member-differs-from-weighted-scalar-run", c, {"member": i, "weight": w})
-                    if np.abs(np.abs(e[i]) - abs(w)).max() > 10 * tol * max(1.0, abs(w)):
-                        return ctx.violation("aberration-ensemble-member-modulus-is-not-its-weight", c, {"member": i, "weight": w})
+                dists = {}
+                for spec in c["dists"]:
+                    sym = spec["symbol"]
+                    base.pop(sym, None)
+                    if spec.get("gaussian"):
+                        dists[sym] = abtem.distributions.gaussian(ufx(spec["gaussian"][0]), int(spec["gaussian"][1]))
+                    else:
+                        dists[sym] = abtem.distributions.from_values(
+                            [ufx(v) for v in spec["values"]],
+                            weights=None if spec.get("weights") is None else np.array([ufx(w) for w in spec["weights"]]))
+                obj = tr.Aberrations(aberration_coefficients=dict(base, **dists), energy=energy)
+                e = np.asarray(obj._evaluate_from_angular_grid(alpha, phi))
+                # axes follow the coefficient dict (polar_symbols) order and are labelled with the symbol
+                order = [ax.label for ax in obj.ensemble_axes_metadata]
+                if sorted(order) != sorted(dists) or e.shape != tuple(len(dists[s_].values) for s_ in order) + (3, 4):
+                    return ctx.violation("aberration-ensemble-has-wrong-axes", c, {"labels": order, "shape": list(e.shape)})
+                # amplitude weight of a member: the distribution weight; on an axis that is averaged afterwards (ensemble_mean, e.g. gaussian)
+                # the weights are rescaled so that their squares average to one (mean of member intensities = weighted mean)
+                eff = {}
+                for s_, dd in dists.items():
+                    ww = np.asarray(dd.weights, dtype=float)
+                    if getattr(dd, "ensemble_mean", False) and (ww ** 2).sum() > 0:
+                        ww = ww * np.sqrt(len(ww) / (ww ** 2).sum())
+                    eff[s_] = ww
+                for idx in product(*[range(len(dists[s_].values)) for s_ in order]):
+                    vals = {s_: float(dists[s_].values[i]) for s_, i in zip(order, idx)}
+                    w = float(np.prod([float(eff[s_][i]) for s_, i in zip(order, idx)]))
+                    s1 = np.asarray(tr.Aberrations(aberration_coefficients=dict(base, **vals), energy=energy)._evaluate_from_angular_grid(alpha, phi))
+                    tole = (1e-7 if c["precision"] == "float64" else 5e-3) * max(1.0, abs(w))
+                    # member = (product of the weights of its distributions) x scalar run, so |member| = that weight
+                    if not (np.abs(e[idx] - w * s1).max() <= tole):
+                        return ctx.violation("aberration-ensemble-member-differs-from-weighted-scalar-run", c, {"member": list(idx), "weight": w})
+                    if not (np.abs(np.abs(e[idx]) - abs(w)).max() <= tole):
+                        return ctx.violation("aberration-ensemble-member-modulus-is-not-its-weight", c, {"member": list(idx), "weight": w})
+            elif chk == "scherzer":
+                # the string "scherzer" for the defocus: C10 = -sign(Cs) sqrt(1.5 |Cs| lambda), whichever of the two names of the
+                # coefficient carries the string (Cs given first)
+                from c24 import spec_wavelength
+
+                Cs = ufx(c["value"])
+                want = -math.copysign(math.sqrt(1.5 * abs(Cs) * float(spec_wavelength(energy))), Cs) if Cs != 0 else 0.0
+                for cls_name, mk in (("Aberrations", tr.Aberrations), ("CTF", tr.CTF)):
+                    for name in ("defocus", "C10"):
+                        for route in ("constructor", "set_aberrations"):
+                            if route == "constructor":
+                                o = mk(aberration_coefficients={"Cs": Cs, name: "scherzer"}, energy=energy)
+                            else:
+                                o = mk(energy=energy, Cs=Cs)
+                                o.set_aberrations({name: "Scherzer"})
+                            got = float(o.C10)
+                            if not (abs(got - want) <= 1e-9 * (1 + abs(want))) or not (abs(float(o.defocus) + got) <= 1e-12 * (1 + abs(got))):
+                                return ctx.violation(f"scherzer-defocus-through-{name}-has-wrong-value-or-sign", c,
+                                                     {"class": cls_name, "route": route, "C10": got, "expected_C10": want})
             else:
                 raise ValueError(chk)
 
@@ -374,20 +431,25 @@ class C21(Property):
                 steps.append([rng.choice(["set_aberrations", "set_aberrations", "setattr"]), items(touched + touched + names)])
             c["steps"] = steps
         if chk == "ensemble":
-            c["symbol"] = rng.choice(POLAR)
-            scale = math.pi if c["symbol"].startswith("phi") else SCALE[int(c["symbol"][1])] * (1e-3 if prec == "float32" else 1)
-            c["values"] = [fx(rng.uniform(-1, 1) * scale) for _ in range(rng.randint(1, 3))]
-            mode = rng.choice(["unit", "weighted", "weighted", "gaussian"])
-            c["weights"] = [fx(rng.uniform(0.05, 2.0)) for _ in c["values"]] if mode == "weighted" else None
-            if mode == "gaussian":
-                c["gaussian"] = [fx(abs(rng.uniform(0.05, 1)) * scale), rng.randint(2, 5)]
+            c["dists"] = []
+            for sym in rng.sample(POLAR, rng.choice([1, 1, 2, 2, 3])):
+                scale = math.pi if sym.startswith("phi") else SCALE[int(sym[1])] * (1e-3 if prec == "float32" else 1)
+                mode = rng.choice(["unit", "weighted", "weighted", "gaussian"])
+                spec = dict(symbol=sym, values=[fx(rng.uniform(-1, 1) * scale) for _ in range(rng.randint(1, 3))], weights=None)
+                if mode == "weighted":
+                    spec["weights"] = [fx(rng.uniform(0.05, 2.0)) for _ in spec["values"]]
+                if mode == "gaussian":
+                    spec["gaussian"] = [fx(abs(rng.uniform(0.05, 1)) * scale), rng.randint(2, 4)]
+                c["dists"].append(spec)
+        if chk == "scherzer":
+            c["value"] = fx(rng.choice([1, -1]) * 10 ** rng.uniform(4, 8))
         return c
 
     def conformance(self, ctx: Ctx):
         from abtem.transfer import polar_aliases
 
         for chk, n in (("alias-table", 1), ("kirkland", ctx.n(80, 1500)), ("rotation", ctx.n(60, 1200)), ("defocus", ctx.n(20, 300)),
-                       ("alias", ctx.n(75, 1000)), ("history", ctx.n(120, 2500)), ("ensemble", ctx.n(25, 400))):
+                       ("alias", ctx.n(75, 1000)), ("history", ctx.n(120, 2500)), ("ensemble", ctx.n(40, 600)), ("scherzer", ctx.n(8, 60))):
             for i in range(n):
                 c = self.gen_conf(ctx, chk)
                 if chk == "alias" and i < len(polar_aliases):  # every alias at least once per run
@@ -402,10 +464,27 @@ class C21(Property):
         if case.get("kind") == "transfer":
             c = dict(check="kirkland", precision=case["precision"], energy=case["energy"], coeffs=case["coeffs"])
             return self.oracle(ctx, c)
+        if case.get("kind") == "attrs":
+            from abtem.transfer import polar_aliases
+
+            res, vals = self.impl_attrs(case)
+            exp = {}
+            for op in case["ops"]:
+                items = [[op[1], op[2]]] if op[0] == "s" else op[1] if op[0] == "u" else []
+                for n, v in items:
+                    if n == "defocus":
+                        exp["C10"] = -ufx(v)
+                    elif polar_aliases.get(n, n) in POLAR:
+                        exp[polar_aliases.get(n, n)] = ufx(v)
+            from abtem.transfer import polar_symbols
+
+            want = [float(exp.get(k, 0.0)) for k in polar_symbols]
+            if vals != want:
+                ctx.violation("update-history-leaves-stale-coefficient", case, {"observed": vals, "expected": want})
+            return
         for chk in ("defocus", "alias"):
             for _ in range(30):
                 self.oracle(ctx, self.gen_conf(ctx, chk))
-
 
 if __name__ == "__main__":
     sys.exit(run_property(C21()))
